@@ -519,14 +519,26 @@ func vfH_limit_history() {
 	mk := func(f []int) []int { return append(append([]int(nil), f[:len(f)-1]...), -1) }
 	g.message(TextMessage, vfBytes(sum(fa)), false, 0, mk(fa), pingInA, PingMessage, vfBytes(2))
 	g.message(BinaryMessage, vfBytes(sum(fb)), false, 0, mk(fb), -1, 0, nil)
-	g.message(TextMessage, vfBytes(sum(fc)), false, 0, mk(fc), -1, 0, nil)
+	// message C may carry a ping between its fragments; the handler may re-assert
+	// the same limit (an application calling SetReadLimit(L) again changes nothing)
+	pingInC := -1
+	if vfChoose(2) == 1 {
+		pingInC = 0
+	}
+	relimit := vfChoose(2) == 1
+	g.message(TextMessage, vfBytes(sum(fc)), false, 0, mk(fc), pingInC, PingMessage, vfBytes(1))
 	tc := vfNewConn(g.wire)
 	if vfChoose(2) == 1 {
 		tc.chunkMode = vfChunkOne
 	}
 	rc := vfReaderConn(tc, readerIsServer, 125)
 	rc.SetReadLimit(L)
-	rc.SetPingHandler(func(string) error { return nil })
+	rc.SetPingHandler(func(string) error {
+		if relimit {
+			rc.SetReadLimit(L)
+		}
+		return nil
+	})
 	// message A: read fully | one byte | not at all
 	mt, r, err := rc.NextReader()
 	vfAssert(err == nil && mt == TextMessage, "c06-within-limit-message-readable")
